@@ -5,7 +5,7 @@
   C14 theorems about byte-order conversion are stated over.  So for the body conversion the chain is
       C text → (translator) → generated Lean = word swaps (CLinkFooter) = Conv.convFooter (here),
   each `=` a theorem: `footer_C_eq_model` (fixed-layout types) and `footer_C_eq_model_ipv6`.
-  The Error Report (a word whose position is read from the PDU) is linked in CLinkFooter only.
+  The Error Report (a word whose position is read from the PDU): `footer_C_eq_model_error_to_network`, `footer_C_eq_model_error_to_host`.
 -/
 import RtrProofs.CLinkFooter
 import RtrModel.PduConv
@@ -194,6 +194,63 @@ theorem footer_C_eq_model_ipv6 (dir : Conv.Dir) (raw : List Nat) (hb : Bytes raw
   have hn' : need (C.memOfList raw 1) (C.memOfList raw 0) ≤ raw.length := by simp [need, t1]; omega
   rw [hx x hlt, convFooter_eq_swapWords dir raw hb (by omega) hn']
   simp [words, t1]
+
+end Rtr.CLink.Footer
+
+namespace Rtr.CLink.Footer
+open Rtr Rtr.Gen Rtr.CLink
+
+/-! ## the Error Report -/
+
+theorem load32_memOfList_toNat (raw : List Nat) (hb : Bytes raw) (a : Nat) :
+    (C.load32 (C.memOfList raw) a).toNat = Conv.le32 raw a := by
+  rw [load32_toNat]
+  simp only [memOfList_toNat hb]
+  unfold Conv.le32
+  omega
+
+theorem revAt_bytes (buf : List Nat) (hb : Bytes buf) (off k : Nat) : Bytes (Conv.revAt buf off k) := by
+  unfold Conv.revAt
+  split
+  · intro x hx
+    simp only [List.mem_append, List.mem_reverse] at hx
+    rcases hx with (hx | hx) | hx
+    · exact hb x (List.mem_of_mem_take hx)
+    · exact hb x (List.mem_of_mem_drop (List.mem_of_mem_take hx))
+    · exact hb x (List.mem_of_mem_drop hx)
+  · exact hb
+
+/-- **C text = hand-written model**, Error Report to network byte order -/
+theorem footer_C_eq_model_error_to_network (raw : List Nat) (hb : Bytes raw) (h10 : P.typeOf raw = 10)
+    (hn : 12 ≤ raw.length ∧ 12 + Conv.le32 raw 8 + 4 ≤ raw.length) :
+    C.rtr_pdu_convert_footer_byte_order (C.memOfList raw) raw.length 0 0#32 = some (C.memOfList (Conv.convFooter .toNetwork raw)) := by
+  have t : C.memOfList raw (0 + 1) = 10#8 := by simpa using (memOfList_byte raw hb 1 10 (by decide)).2 h10
+  rw [footer_error_to_network (C.memOfList raw) raw.length 0 (by omega) t]
+  simp only [Nat.zero_add]
+  rw [load32_memOfList_toNat raw hb 8, if_pos hn]
+  unfold Conv.convFooter
+  have k1 : Gen.offsetof_pdu_error_len_enc_pdu = 8 := rfl
+  have k2 : Gen.offsetof_pdu_error_rest = 12 := rfl
+  simp only [h10, k1, k2]
+  rw [memOfList_revAt4 _ _ (by rw [revAt_length]; omega), memOfList_revAt4 _ _ (by omega)]
+
+/-- **C text = hand-written model**, Error Report to host byte order (the length is converted first and then locates the text-length word) -/
+theorem footer_C_eq_model_error_to_host (raw : List Nat) (hb : Bytes raw) (h10 : P.typeOf raw = 10)
+    (hn : 12 ≤ raw.length ∧ 12 + Conv.le32 (Conv.revAt raw 8 4) 8 + 4 ≤ raw.length) :
+    C.rtr_pdu_convert_footer_byte_order (C.memOfList raw) raw.length 0 1#32 = some (C.memOfList (Conv.convFooter .toHost raw)) := by
+  have t : C.memOfList raw (0 + 1) = 10#8 := by simpa using (memOfList_byte raw hb 1 10 (by decide)).2 h10
+  have e : (C.bswap32 (C.load32 (C.memOfList raw) 8)).toNat = Conv.le32 (Conv.revAt raw 8 4) 8 := by
+    rw [← load32_memOfList_toNat _ (revAt_bytes raw hb 8 4) 8, memOfList_revAt4 raw 8 (by omega)]
+    unfold swapAt
+    rw [load32_store32]
+  rw [footer_error_to_host (C.memOfList raw) raw.length 0 (by omega) t]
+  simp only [Nat.zero_add]
+  rw [e, if_pos hn]
+  unfold Conv.convFooter
+  have k1 : Gen.offsetof_pdu_error_len_enc_pdu = 8 := rfl
+  have k2 : Gen.offsetof_pdu_error_rest = 12 := rfl
+  simp only [h10, k1, k2]
+  rw [memOfList_revAt4 _ _ (by rw [revAt_length]; omega), memOfList_revAt4 _ _ (by omega)]
 
 end Rtr.CLink.Footer
 
